@@ -1,10 +1,13 @@
 (* C18  Public API is total.
    Proved: (a) every State and OperationType constant has a returning case in its String() method - the
    case lists are regenerated from the source's switch statements on every run, so deleting a case breaks
-   this file; (b) a future is answered at most once and the first answer is kept.
+   this file; (b) a future is answered at most once and the first answer is kept - node level for every state, and at
+   cluster level for every execution without membership changes and snapshots (C18_answers_once_cluster,
+   C18_answers_never_retracted: crashes, restarts and storage-failure freezes included).
    Not provable in this model: absence of runtime panics, process exit and hangs of the real goroutines;
    these are observed by harness/cmd/apidiff (bounded API programs, child process + watchdog). *)
 From RaftV Require Import Gen.Constants Node.Leader Proofs.Futures.
+From RaftV Require Import Cluster.World Cluster.Statements Proofs.ConfStatic Proofs.LogDefs Proofs.LogMatching Proofs.AnswerHistory.
 Open Scope N_scope.
 
 Theorem C18_state_string_total :
@@ -26,3 +29,17 @@ Theorem C18_first_answer_wins : forall n f r r0,
   In (f, r0) (n_results n) -> n_results (respond n f r) = n_results n.
 Proof. exact respond_keeps_first. Qed.
 Print Assumptions C18_first_answer_wins.
+
+(* cluster level, every execution without membership changes and snapshots: in the answer history of every node each
+   future id occurs at most once ... *)
+Theorem C18_answers_once_cluster : forall ids boot et ld ls, static ls = true -> nosnap ls = true ->
+  forall n, In n (w_nodes (run (init_world ids boot et ld) ls)) -> NoDup (map fst (n_results n)).
+Proof. exact answers_once. Qed.
+Print Assumptions C18_answers_once_cluster.
+
+(* ... and one step only ever appends to it: an answer given is never changed or retracted (crash and restart keep it) *)
+Theorem C18_answers_never_retracted : forall C w l, NoDup (member_ids C) -> static_label l = true -> nosnap_label l = true -> ALL C w ->
+  forall n', In n' (w_nodes (step w l)) -> exists n, In n (w_nodes w) /\ n_id n' = n_id n /\
+    (exists more, n_results n' = n_results n ++ more) /\ (NoDup (map fst (n_results n)) -> NoDup (map fst (n_results n'))).
+Proof. exact step_answers. Qed.
+Print Assumptions C18_answers_never_retracted.
